@@ -223,3 +223,92 @@ def recfault(case, ctx):
                       "recfault/post-stray-accepted/%s/%s" % (proto, dd))
         return
     _verdict(ctx, hc, hs, what, "recfault/%s/%s/%s#%d" % (fault, proto, d, idx), stalled)
+
+
+# ---------------------------------------------------------------------------
+# The Finished message is what makes every alteration of the handshake visible.  It is checked directly here: an otherwise honest
+# scripted peer (vlib/peer12.py, vlib/peer13.py) sends a Finished whose verify_data is wrong - one bit flipped, zeroed, computed with the
+# other side's label / secret, or over a shorter transcript.  Whatever an attacker changed elsewhere, this is the value the endpoint would
+# see; an endpoint that completes here accepts every tampering that only the Finished check could catch.
+fin_case = st.fixed_dictionaries({"proto": st.sampled_from(net.PROTOS), "role": st.sampled_from(["client", "server", "server-noauth"]),
+                                  "kind": st.sampled_from(["bitflip", "bitflip", "zero", "other-label", "ones", "first-byte", "last-byte"]),
+                                  "bit": st.integers(0, 95), "seed": st.integers(0, 1 << 30), "inst": st.integers(0, 2), "n_inter": st.integers(0, 1)})
+
+
+def _corrupt(vd, kind, bit, other):
+    b = bytearray(vd)
+    if kind == "bitflip":
+        b[(bit >> 3) % len(b)] ^= 1 << (bit & 7)
+    elif kind == "zero":
+        b = bytearray(len(b))
+    elif kind == "ones":
+        b = bytearray(b"\xff" * len(b))
+    elif kind == "first-byte":
+        b[0] ^= 0x80
+    elif kind == "last-byte":
+        b[-1] ^= 0x01
+    elif kind == "other-label":
+        b = bytearray(other)
+    return bytes(b) if bytes(b) != bytes(vd) else bytes([vd[0] ^ 1]) + bytes(vd[1:])
+
+
+@P.sub("finished", fin_case, quick=600, thorough=20000, chunk=30)
+def finished(case, ctx):
+    """an honest scripted peer whose Finished verify_data is wrong: the library endpoint must not complete (control: the same peer, right value)"""
+    from vlib import peer12 as S12, peer13 as S13
+    from props.c09x import scripted13 as X13
+    proto, role, kind = case["proto"], case["role"], case["kind"]
+    shim().freeze_time(pki.T0)
+    if proto == "tls13":
+        if role == "server-noauth":
+            role = "server"
+        c13 = {"role": role, "seed": case["seed"] % 1000, "inst": case["inst"], "depth": case["n_inter"], "pad": 0, "cr": 0, "chain": "victim"}
+        ctl = X13._run(ctx, role, "honest", c13, "victim", "attacker", "wrong-key", control=True)
+        ok = ctl["ret"] == 1 and ctl["peer"] and ctl["peer"]["done"]
+        if not ok:
+            ctx.note("control-failed"); return
+        orig = S13.finished_mac
+        mine = {"n": 0}
+
+        def bad_mac(secret, thash):
+            v = orig(secret, thash)
+            mine["n"] += 1
+            # the script calls finished_mac for its own Finished and for checking the library's; only its own (sent) one is corrupted:
+            # as server it computes its own first, as client it verifies the server's first
+            own = (mine["n"] == 1) if role == "client" else (mine["n"] == 2)
+            return _corrupt(v, kind, case["bit"], orig(secret[::-1], thash)) if own else v
+        S13.finished_mac = bad_mac
+        try:
+            res = X13._run(ctx, role, "honest", c13, "victim", "attacker", "wrong-key", control=False)
+        finally:
+            S13.finished_mac = orig
+        ret = res["ret"]
+        used = mine["n"] >= (1 if role == "client" else 2)
+    else:
+        honest = "honest-noauth" if role == "server-noauth" else "honest"
+        ctl = S12.run(ctx.variant, proto, role, honest, inst=case["inst"], n_inter=case["n_inter"], seed=case["seed"], idle=30.0)
+        if not (ctl["lib"] == 1 and ctl["script"] and ctl["script"]["completed"]):
+            ctx.note("control-failed"); return
+        own_label = b"server finished" if role == "client" else b"client finished"
+        cls12 = S12.ScriptedServer if role == "client" else S12.ScriptedClient
+        orig = cls12.verify_data
+        hit = {"n": 0}
+
+        def bad_vd(self, label):
+            v = orig(self, label)
+            if label == own_label:
+                hit["n"] += 1
+                return _corrupt(v, kind, case["bit"], orig(self, b"client finished" if role == "client" else b"server finished"))
+            return v
+        cls12.verify_data = bad_vd
+        try:
+            res = S12.run(ctx.variant, proto, role, honest, inst=case["inst"], n_inter=case["n_inter"], seed=case["seed"], idle=6.0)
+        finally:
+            cls12.verify_data = orig
+        ret = res["lib"]
+        used = hit["n"] >= 1
+    ctx.case(nontrivial=bool(used), classes=[proto, "lib-" + role, "fin:" + kind], ident=case, sample=case)
+    if not used:
+        ctx.note("finished-not-reached"); return
+    ctx.check(ret != 1, "%s %s reports a completed handshake although the peer's Finished verify_data was wrong (%s%s)" %
+              (proto, "client" if role == "client" else "server", kind, ", bit %d" % case["bit"] if kind == "bitflip" else ""), "finished/%s/%s/%s" % (proto, role, kind))
